@@ -64,7 +64,7 @@ check('C03', 'exploration',
       "0/2 attachments, responder calling its ack function once / twice / twice concurrently, all trials of a direction outstanding at once; per-emission callback counter and reply-token "
       "oracle (at most once; exactly once with a timeout, decided at timeout+10 s; reply token or ErrAckTimeout with zero values); wire-level ACK count per id through a raw peer; "
       "big replies (~600 KB, slow to decode) timed into the race band one at a time after measuring their round trip; "
-      "offline (never connected) timeouts with 0..3 attachments followed by connect, probe round trip and server-side 'purged event not seen / no error / no disconnect'; link cut mid-flight.",
+      "offline (never connected) timeouts with 0..3 attachments followed by connect, probe round trip and server-side 'purged event not seen / no error / no disconnect'; link cut mid-flight (also with reconnection and new ack-carrying emits while the old timers still run).",
       "No outcome is prescribed inside the race band; a late reply reported to error handlers ('ACK with ID n not found') is not counted as a violation.",
       "callback-count + reply-token monitor over timing sweeps; wire observer; post-condition probes", "DESIGN.md §3 C03")
 
@@ -87,7 +87,7 @@ check('C04', 'exploration',
 check('C06', 'fault_enumeration',
       "Cause x phase trials (10 termination causes x {before CONNECT, inside a parked namespace middleware, connected idle, mid-burst c->s, mid-burst s->c, during the polling->websocket "
       "upgrade, two namespaces, Join/Leave storm on the closing socket, second namespace's CONNECT parked while the first socket runs a slow disconnecting handler} x transport) driven by a raw protocol peer through a byte-accurate TCP fault proxy; scripted sessions cut at every k-th byte (k=1 on websocket in thorough) in "
-      "each direction; several causes fired at once; the socket's admission held at a wrapped adapter (public AdapterCreator) while the cause is injected; sessions being opened by 8 goroutines while Server.Close runs. Monitors: per-socket counters on connection/disconnecting/disconnect handler entry with the reported reason, and a quiescent-point "
+      "each direction; several causes fired at once; the socket's admission held at a wrapped adapter (public AdapterCreator) while the cause is injected; sessions being opened by 8 goroutines while Server.Close runs; a connection handler that registers its handlers late; the Go client closing its Manager during its own held handshake. Monitors: per-socket counters on connection/disconnecting/disconnect handler entry with the reported reason, and a quiescent-point "
       "sweep over Namespace.Sockets, the adapter index (invariant + snapshot hook), the Engine.IO session-count hook and an HTTP probe with the old sid.",
       "Quiescence = sweep stable and clean under a watchdog of pingInterval+pingTimeout+15 s; allowed reason sets per cause are the monitor's reading of 'a reason naming the cause'.",
       "fault injection (proxy cuts/black-holes, parked middleware) + handler-entry counters + quiescent-state sweep through invariant hooks", "DESIGN.md §3 C06")
@@ -121,7 +121,7 @@ check('C12', 'exploration',
 check('C13', 'exploration',
       "Enforcement: an independent raw peer sends one message of transport-level size L-1, L, L+1, 2L, 10L and seeded sizes declared four ways (POST with Content-Length, chunked POST, websocket text, websocket "
       "binary, and websocket text/binary on a session opened on polling and upgraded) to real servers with MaxBufferSize 200, 4096, default 1e6, disabled; monitors: server packet callback (length + content hash), close callback, live-session count, what the sender saw. "
-      "Acceptance: real Go client <-> real server over polling and websocket, both directions, text and binary, at the frame-header steps, the 32 KiB library default, L-1 and L, incl. multi-packet Send. "
+      "Acceptance: real Go client <-> real server over polling, websocket and polling upgraded to websocket, both directions, text and binary, at the frame-header steps, the 32 KiB library default, L-1 and L, incl. multi-packet Send. "
       "Batcher: the client's real writeWritablePackets behind VerifSplitBatches enumerated exhaustively (thorough: all vectors of <= 6 data lengths over {0,1,2,3,5,8,13} x all text/binary assignments x "
       "maxPayload 0..45) with pointer-exact conservation and 'every multi-packet batch fits maxPayload'.",
       "Size = size as the transport sees it; limit n admits exactly n bytes; absence verdicts after 15 s; the exhaustive flag refers to the batcher part only.",
@@ -147,7 +147,7 @@ check('C08', 'exploration',
       "Adapter level: the real session-aware adapter (window and clean-up period through a verif constructor, clean-up passes counted by a hook) driven with generated histories of namespace / room-with-exclusions / "
       "direct broadcasts (text, binary, ack-carrying) over 3 sessions x 3 rooms, one or two sessions lost at every point k and restored one after the other from the same log, clean-up period {off, 2 ms, 10 ms}, reconnect gap on both sides of the window; RestoreSession compared "
       "with an executable model of the log (missed list, identity, replayed frames re-encoded and decoded by the reference codec). A steady broadcast stream concurrent with 1 ms clean-up passes around a lost session. End to end: raw protocol peer tracking the offset itself, and the real Go client "
-      "reconnecting through a TCP proxy cut (recovered flag on both sides, exactly-once across the reconnect).",
+      "reconnecting through a TCP proxy cut (recovered flag on both sides, exactly-once across the reconnect, also across a second outage right after the recovery without live traffic in between).",
       "Time is bracketed: must-recover only when an upper bound of the elapsed time is inside the window and the offset entry is provably unexpired (or the cleaner is off), must-not only when a lower bound is outside. Binary leaves nested in maps / behind pointers inside logged packets are not exercised (C09 known finding).",
       "reference model of the recovery log + bracketed time + hook-counted clean-up passes; raw wire observer", "DESIGN.md §3 C08")
 
@@ -164,7 +164,7 @@ check('C05', 'exploration',
       "Go programs: namespace sets of size 1..4 drawn from 11 look-alike names (prefixes of one another, digits, spaces, unicode, '?'), multiplexed on one Manager or on separate Managers, CONNECT reply order permuted "
       "by per-namespace middleware delays, 40 interleaved steps {emit c->s, emit s->c, acks both ways, namespace broadcast} with every payload tagged by its namespace, concurrent bursts on all namespaces from both sides, then a single-namespace disconnect and probe "
       "round trips on all the others; oracle: set membership on the recorded log (a handler / ack / broadcast recorder of X only ever sees payloads tagged X). Raw protocol peer: 8 kinds of packets for namespaces "
-      "that are not joined or whose CONNECT is parked in a middleware must close the connection without any handler running; leaving and re-joining one namespace in a single payload must not hurt a neighbour; an event sent right after the CONNECT reply must be served (unforced and with hook H4 "
+      "that are not joined or whose CONNECT is parked in a middleware must close the connection without any handler running; leaving and re-joining one namespace in a single payload must not hurt a neighbour; a connection whose CONNECT for a namespace was rejected after a middleware's Join receives nothing of that namespace; an event sent right after the CONNECT reply must be served (unforced and with hook H4 "
       "widening the admission window).",
       "The Go client normalises '' to '/', so that pair is exercised through the raw peer only.",
       "tagged-payload membership oracle over generated programs; raw wire peer for invalid-state packets; hook-widened admission window", "DESIGN.md §3 C05")
